@@ -198,6 +198,10 @@ func c07wpaths() []c07wpath {
 	for _, f := range []string{"a", "a/b", "+/b", "#", "a/#"} {
 		evs = append(evs, "sub:"+f)
 	}
+	// several filters in one SUBSCRIBE packet (each is a subscription of its own), incl. one matching nothing
+	for _, f := range []string{"zz/y,a/b", "a/b,zz/y", "a,+/b", "zz/y,#", "a/#,a/b"} {
+		evs = append(evs, "sub:"+f)
+	}
 	var out []c07wpath
 	for _, n := range []int{1, 2} {
 		depth := vk.Pick(3, 4)
@@ -285,8 +289,11 @@ func TestC07Wire(t *testing.T) {
 						}
 					case "sub":
 						mid++
-						late.Subscribe(mid, 0, parts[1])
-						lateActive[parts[1]] = true
+						subFilters := strings.Split(parts[1], ",")
+						late.Subscribe(mid, 0, subFilters...)
+						for _, f := range subFilters {
+							lateActive[f] = true
+						}
 						w.Step()
 						got := late.Received()[l0:]
 						if len(got) == 0 || got[0].String() != fmt.Sprintf("SUBACK(%d)", mid) {
@@ -306,9 +313,11 @@ func TestC07Wire(t *testing.T) {
 							}
 							have = append(have, string(lp.Topic)+"="+string(lp.Payload))
 						}
-						for tp, pl := range retained {
-							if refMatchTopic(parts[1], tp) {
-								want = append(want, tp+"="+pl)
+						for _, f := range subFilters {
+							for tp, pl := range retained {
+								if refMatchTopic(f, tp) {
+									want = append(want, tp+"="+pl)
+								}
 							}
 						}
 						sort.Strings(have)
